@@ -82,6 +82,8 @@ func main() {
 		cmdCpmDump(os.Args[2:])
 	case "gcheck":
 		cmdGCheck(os.Args[2:])
+	case "hooktrace":
+		cmdHookTrace(os.Args[2:])
 	case "play":
 		cmdPlay(os.Args[2:])
 	case "sweep16":
